@@ -5,16 +5,15 @@ From C11 Require Import Generated Model.
 Import ListNotations.
 Open Scope Z_scope.
 
-(* what can follow a written value: end of text, a blank, or a closing bracket *)
-Definition stopc (c : Z) : bool := (c =? 32) || (c =? 93) || (c =? 125).
+(* what can follow a written value: end of text, a blank, a tab, a line break, or a closing bracket *)
+Definition stopc (c : Z) : bool := (c =? 32) || (c =? 93) || (c =? 125) || (c =? 10) || (c =? 9).
 Definition stops (rest : list Z) : Prop :=
   match rest with [] => True | c :: _ => stopc c = true end.
 
-Lemma stopc_cases : forall c, stopc c = true -> c = 32 \/ c = 93 \/ c = 125.
+Lemma stopc_cases : forall c, stopc c = true -> c = 32 \/ c = 93 \/ c = 125 \/ c = 10 \/ c = 9.
 Proof.
   intros c H. unfold stopc in H.
-  apply orb_true_iff in H as [H | H]; [apply orb_true_iff in H as [H | H] |];
-    apply Z.eqb_eq in H; auto.
+  repeat (apply orb_true_iff in H as [H | H]); apply Z.eqb_eq in H; auto.
 Qed.
 
 (* ------------------------------------------------------------- span *)
@@ -139,20 +138,17 @@ Proof.
 Qed.
 
 Lemma stopc_not_numeric : forall c, stopc c = true -> is_numeric E c = false.
-Proof. intros c H. destruct (stopc_cases c H) as [-> | [-> | ->]]; reflexivity. Qed.
+Proof. intros c H. destruct (stopc_cases c H) as [-> | [-> | [-> | [-> | ->]]]]; reflexivity. Qed.
 
 Lemma stopc_not_symbolic : forall c, stopc c = true -> is_symbolic E c = false.
-Proof. intros c H. destruct (stopc_cases c H) as [-> | [-> | ->]]; reflexivity. Qed.
-
-Lemma stopc_not_space_or : forall c, stopc c = true -> c = 32 \/ (is_space E c = false /\ c <> 58).
-Proof. intros c H. destruct (stopc_cases c H) as [-> | [-> | ->]]; auto; right; split; (reflexivity || lia). Qed.
+Proof. intros c H. destruct (stopc_cases c H) as [-> | [-> | [-> | [-> | ->]]]]; reflexivity. Qed.
 
 (* ------------------------------------------------------------- read_num's loop *)
 Lemma num_loop_stop : forall rest uf, stops rest -> num_loop E rest uf = ([], rest, uf).
 Proof.
   intros [| c rest] uf H; [reflexivity |]. cbn in H.
   cbn [num_loop].
-  destruct (stopc_cases c H) as [-> | [-> | ->]]; reflexivity.
+  destruct (stopc_cases c H) as [-> | [-> | [-> | [-> | ->]]]]; reflexivity.
 Qed.
 
 Lemma num_loop_digits : forall ds t uf, forallb ascii_digit ds = true ->
